@@ -14,6 +14,11 @@ CONSTANTS
   NC1,          \* calls 1..NC1 belong to client "c1", the rest to "c2"
   MaxCuts,      \* fault budget: transport cuts
   MaxProxy,     \* fault budget: proxy mode switches
+  MaxCloses,    \* budget: Close() calls (either side)
+  TmoCalls,     \* calls that may carry a timeout
+  FFCalls,      \* calls that may be fail-fast
+  CancelCalls,  \* calls whose context may be cancelled by the caller
+  Outs,         \* handler outcomes explored
   AllowShutdown,\* graceful Server.Shutdown() in the environment
   GenMode       \* TRUE: record hist, emit finished behaviours
 
@@ -25,7 +30,7 @@ VARIABLES hist, budget
 mcvars == <<vars, hist, budget>>
 View == <<vars, budget>>
 
-MCInit == Init /\ hist = <<>> /\ budget = [cut |-> 0, proxy |-> 0, fin |-> FALSE]
+MCInit == Init /\ hist = <<>> /\ budget = [cut |-> 0, proxy |-> 0, close |-> 0, fin |-> FALSE]
 
 Ev(e) == hist' = IF GenMode THEN Append(hist, e) ELSE hist
 E1(n, id) == [ev |-> n, id |-> id]
@@ -40,12 +45,15 @@ MCNext ==
   /\ ~Finished
   /\ \/ Internal /\ UNCHANGED <<hist, budget>>
      \/ \E id \in CallIds : \E t, f \in BOOLEAN :
-          Invoke(id, t, f) /\ Ev([ev |-> "start", id |-> id, cl |-> MCOwnerOf(id), tmo |-> t, ff |-> f]) /\ UNCHANGED budget
-     \/ \E id \in CallIds : CtxCancel(id) /\ call[id].ctx = "live" /\ Ev(E1("cancel", id)) /\ UNCHANGED budget
+          /\ t => id \in TmoCalls
+          /\ f => id \in FFCalls
+          /\ Invoke(id, t, f) /\ Ev([ev |-> "start", id |-> id, cl |-> MCOwnerOf(id), tmo |-> t, ff |-> f]) /\ UNCHANGED budget
+     \/ \E id \in CallIds : id \in CancelCalls /\ CtxCancel(id) /\ call[id].ctx = "live" /\ Ev(E1("cancel", id)) /\ UNCHANGED budget
      \/ \E id \in CallIds : Return(id) /\ Ev([ev |-> "ret", id |-> id, res |-> call'[id].rv.k, got |-> call'[id].rv.from]) /\ UNCHANGED budget
      \/ \E id \in CallIds : HandlerEnter(id) /\ Ev(E1("enter", id)) /\ UNCHANGED budget
-     \/ \E id \in CallIds : \E o \in HandlerOuts : HandlerExit(id, o) /\ Ev([ev |-> "exit", id |-> id, out |-> o]) /\ UNCHANGED budget
-     \/ \E c \in Clients : CliCloseBegin(c) /\ Ev([ev |-> "close", side |-> c]) /\ UNCHANGED budget
+     \/ \E id \in CallIds : \E o \in Outs : HandlerExit(id, o) /\ Ev([ev |-> "exit", id |-> id, out |-> o]) /\ UNCHANGED budget
+     \/ \E c \in Clients : /\ budget.close < MaxCloses /\ CliCloseBegin(c) /\ Ev([ev |-> "close", side |-> c])
+                           /\ budget' = [budget EXCEPT !.close = @ + 1]
      \/ \E c \in Clients : /\ budget.cut < MaxCuts /\ Cut(c) /\ Ev([ev |-> "cut", cl |-> c])
                            /\ budget' = [budget EXCEPT !.cut = @ + 1]
      \/ \E c \in Clients : \E m \in {"pass", "refuse"} :
@@ -53,7 +61,8 @@ MCNext ==
                            /\ Ev([ev |-> "proxy", cl |-> c, mode |-> m])
                            /\ budget' = [budget EXCEPT !.proxy = @ + 1]
      \/ AllowShutdown /\ SrvShutdown /\ Ev([ev |-> "shutdown", side |-> "server"]) /\ UNCHANGED budget
-     \/ SrvCloseBegin /\ Ev([ev |-> "close", side |-> "server"]) /\ UNCHANGED budget
+     \/ /\ budget.close < MaxCloses /\ SrvCloseBegin /\ Ev([ev |-> "close", side |-> "server"])
+        /\ budget' = [budget EXCEPT !.close = @ + 1]
      \/ /\ GenMode /\ AllQuiet
         /\ budget' = [budget EXCEPT !.fin = TRUE]
         /\ hist' = hist
